@@ -178,12 +178,16 @@ def check_detach(ctx):
   from ..consteval import NotConst as _NC, Raised as _R, Sym as _Sym
   from ..rules.minieval import MiniEval, Node
   D, R = _Sym("document"), _Sym("region")
-  mk = lambda kind, name, ch=(): Node(kind, name, ch, _doc=D, _region=R)
+  def mk(kind, name, ch=()):
+    ch = list(ch)
+    return Node(kind, name, ch, _doc=D, _region=R, _first_child=ch[0] if ch else None, _last_child=ch[-1] if ch else None)
   tree = mk("Div", "div", [mk("P", "p1", [mk("Span", "s1", [mk("Span", "s2"), mk("Br", "br")])]), mk("P", "p2")])
+  leaf = mk("P", "childless_p")
   me = MiniEval(ix, node_methods={"is_attached": lambda n_: n_.fields.get("_doc") is not None, "get_doc": lambda n_: n_.fields.get("_doc")})
   try:
     me.call(f, [tree, None])
-    left = [n_.name for n_ in tree.walk() if n_.fields.get("_doc") is not None or n_.fields.get("_region") is not None]
+    me.call(f, [leaf, None])
+    left = [n_.name for t_ in (tree, leaf) for n_ in t_.walk() if n_.fields.get("_doc") is not None or n_.fields.get("_region") is not None]
     ctx.check(not left, "PAIR-detach", f"{f.qualname}|detaching clears the region reference of every element of the subtree", ctx.where(f.module, f.node),
               "interpreted on a sample subtree: set_doc(None) leaves no element with a document or a region reference",
               f"interpreted on a sample subtree, set_doc(None) leaves {left} with a document or region reference: a detached descendant keeps referencing a region of its "
